@@ -11,3 +11,5 @@ pub mod ffi;
 pub mod registry;
 pub mod stubs;
 pub mod vk;
+#[cfg(not(kani))]
+pub mod witness;
